@@ -273,6 +273,7 @@ def r4(ctx: RuleCtx) -> None:
         ctx.require(bad is None, f'{target}: {fa} is evaluated before {fb}, each once', ef.mod, ef.qn, f'{target}: operand order',
                     f'{target} evaluates its operands in the order {bad.evals if bad else ""}; reference: {fa} then {fb}', bad.sp.last_node if bad else None)
     check_foreach(ctx, arm_method(arms, 'ForeachClauseNode') or 'evaluate_foreach')
+    check_loop_control_transparent(ctx, arm_method(arms, 'ForeachClauseNode') or 'evaluate_foreach')
 
 
 def check_if(ctx: RuleCtx, name: str) -> None:
@@ -395,6 +396,135 @@ def check_foreach(ctx: RuleCtx, name: str) -> None:
         ctx.require(ok, f'{cls} raises {exc}', mod, 'InterpreterBase.evaluate_statement', f'{cls} arm', f'the arm of {cls}: {did}; reference: raise {exc}()', mod.func('InterpreterBase.evaluate_statement'))
 
 
+EXCEPTIONS = 'mesonbuild/interpreterbase/exceptions.py'
+
+
+def _self_calls(fn: ast.AST) -> T.Tuple[T.Set[str], T.Set[str]]:
+    """(methods called as self.X(..) / super().X(..), methods referenced as a value self.X) inside a function."""
+    called: T.Set[str] = set()
+    called_nodes = set()
+    for n in ast.walk(fn):
+        if isinstance(n, ast.Call) and isinstance(n.func, ast.Attribute):
+            r = n.func.value
+            if (isinstance(r, ast.Name) and r.id == 'self') or (isinstance(r, ast.Call) and norm(r.func) == 'super'):
+                called.add(n.func.attr)
+                called_nodes.add(id(n.func))
+    refs = {n.attr for n in ast.walk(fn) if isinstance(n, ast.Attribute) and isinstance(n.ctx, ast.Load) and isinstance(n.value, ast.Name) and n.value.id == 'self'
+            and id(n) not in called_nodes}
+    return called, refs
+
+
+def _always_reraises(body: T.List[ast.stmt], bound: T.Optional[str]) -> bool:
+    """Every way through the handler body ends by re-raising the caught exception itself (bare `raise` / `raise <bound name>`)."""
+    if not body:
+        return False
+    last = body[-1]
+    if isinstance(last, ast.Raise):
+        return last.cause is None and (last.exc is None or (bound is not None and isinstance(last.exc, ast.Name) and last.exc.id == bound))
+    if isinstance(last, ast.If):
+        return _always_reraises(last.body, bound) and _always_reraises(last.orelse, bound)
+    return False
+
+
+def check_loop_control_transparent(ctx: RuleCtx, foreach: str) -> None:
+    """break / continue reach the enclosing foreach from wherever the statement stands - also from a file entered by subdir(), which runs as if
+    written in place: no evaluator function that can be on the stack between a loop body and the raising statement (closed world: the methods of
+    InterpreterBase / Interpreter that are reachable from evaluate_codeblock and reach it again, dynamic dispatch through method references
+    included) catches the loop-control requests without re-raising them.  The foreach evaluator itself is judged by check_foreach."""
+    repo = ctx.repo
+    ib, im, ex = repo.module(IB), repo.module(INTERP), repo.module(EXCEPTIONS)
+    # what catches a loop-control request: its own class and the ancestors named in exceptions.py, BaseException, a bare except
+    catching: T.Dict[str, T.Set[str]] = {}
+    for exc in ('ContinueRequest', 'BreakRequest'):
+        anc, work = {exc, 'BaseException'}, [exc]
+        while work:
+            c = work.pop()
+            if ex.has_cls(c):
+                for b in ex.cls(c).bases:
+                    nm = norm(b).split('.')[-1]
+                    if nm not in anc:
+                        anc.add(nm)
+                    work.append(nm) if ex.has_cls(nm) else None
+        catching[exc] = anc
+    known_other = set(ex.classes()) - (catching['ContinueRequest'] | catching['BreakRequest'])
+    # methods by name, the subclass definition first (Interpreter overrides InterpreterBase)
+    methods: T.Dict[str, T.List[T.Tuple[Module, str, ast.AST]]] = {}
+    for m, cls in ((im, 'Interpreter'), (ib, 'InterpreterBase')):
+        if not m.has_cls(cls):
+            raise Undecided(f'{cls} not found')
+        for st in m.cls(cls).body:
+            if isinstance(st, (ast.FunctionDef, ast.AsyncFunctionDef)):
+                methods.setdefault(st.name, []).append((m, f'{cls}.{st.name}', st))
+    edges: T.Dict[str, T.Set[str]] = {}
+    dynamic: T.Set[str] = set()
+    for name, defs in methods.items():
+        out: T.Set[str] = set()
+        for _, _, fn in defs:
+            called, refs = _self_calls(fn)
+            out |= called & set(methods)
+            dynamic |= refs & set(methods)
+        edges[name] = out
+    # a call through a table of method references: function_call / method_call style dispatch (any function that calls a non-method callable
+    # obtained from self.<table>[..]) may reach every method that is referenced as a value
+    for name, defs in methods.items():
+        for _, _, fn in defs:
+            if any(isinstance(n, ast.Subscript) and attr_chain(n.value) is not None and str(attr_chain(n.value)).startswith('self.') for n in ast.walk(fn)) \
+                    and any(isinstance(n, ast.Call) and isinstance(n.func, ast.Name) for n in ast.walk(fn)):
+                edges[name] |= dynamic
+
+    def closure(start: str, g: T.Dict[str, T.Set[str]]) -> T.Set[str]:
+        seen, work = set(), [start]
+        while work:
+            x = work.pop()
+            for y in g.get(x, ()):
+                if y not in seen:
+                    seen.add(y)
+                    work.append(y)
+        return seen
+    body_fn = 'evaluate_codeblock'
+    if body_fn not in methods:
+        raise Undecided('InterpreterBase.evaluate_codeblock not found')
+    rev: T.Dict[str, T.Set[str]] = {}
+    for a, bs in edges.items():
+        for b in bs:
+            rev.setdefault(b, set()).add(a)
+    between = (closure(body_fn, edges) & closure(body_fn, rev)) | {body_fn}
+    n = 0
+    for name in sorted(between):
+        if name == foreach:
+            continue
+        for m, qn, fn in methods[name]:
+            for tr in [x for x in ast.walk(fn) if isinstance(x, ast.Try)]:
+                inner = {c for st in tr.body for c in _self_calls(st)[0]} & between
+                indirect = any(isinstance(c, ast.Call) and isinstance(c.func, ast.Name) and c.func.id not in ('isinstance', 'getattr', 'len', 'next', 'iter')
+                               for st in tr.body for c in ast.walk(st)) and bool(edges[name] & dynamic)
+                if not inner and not indirect:
+                    continue
+                n += 1
+                for h in tr.handlers:
+                    types = [None] if h.type is None else (list(h.type.elts) if isinstance(h.type, ast.Tuple) else [h.type])
+                    caught: T.Set[str] = set()
+                    for ty in types:
+                        nm = 'BaseException' if ty is None else norm(ty).split('.')[-1]
+                        if ty is not None and (attr_chain(ty) is None or not nm[:1].isupper() or nm.isupper()):
+                            raise Undecided(f'{qn}: a handler around the evaluation of nested statements catches `{short(ty, 60)}`, which this rule cannot resolve to exception classes')
+                        caught |= {e for e, anc in catching.items() if nm in anc}
+                    if not caught:
+                        continue
+                    what = f'{qn}: handler for {"/".join(sorted(caught))} around {sorted(inner) or "a dispatched call"}'
+                    if _always_reraises(h.body, h.name):
+                        ctx.ok(what + ' re-raises the request')
+                    elif any(isinstance(x, ast.Raise) and (x.exc is None or (h.name and isinstance(x.exc, ast.Name) and x.exc.id == h.name)) for st in h.body for x in ast.walk(st)):
+                        raise Undecided(f'{qn}: a handler that catches {sorted(caught)} re-raises it only on some paths')
+                    else:
+                        ctx.violation(m, qn, f'loop control intercepted: {"/".join(sorted(caught))}',
+                                      f'{qn} can be on the stack between a foreach body and a nested `break`/`continue` (e.g. in a file entered by subdir(), which runs as if written in place) '
+                                      f'and its handler `except {short(h.type, 60) if h.type is not None else ""}` catches {sorted(caught)} without re-raising: the request never reaches the enclosing loop', h)
+    ctx.floor('try statements around nested statement evaluation between a loop body and break/continue', n, 2)
+    ctx.ok(f'loop-control requests pass through {len(between) - 1} evaluator functions between a foreach body and the raising statement ({n} try statements read)')
+    ctx.floor('evaluator functions between a loop body and the raising statement (dispatch through method references included)', len(between), 12)
+
+
 # ---------------------------------------------------------------------------
 # dispatch (shared by R2, R4, R5)
 # ---------------------------------------------------------------------------
@@ -484,7 +614,15 @@ def constructible_nodes(ctx: RuleCtx) -> T.Dict[str, str]:
                     continue
                 raise Undecided(f'Parser.{meth} returns {show(r)}')
             fname, args = r[2], r[4]
-            if fname == 'self.create_node' and args and args[0][0] == 'name':
+            paired = c01_parser.pairing_table_keys(mod, args[0]) if fname == 'self.create_node' and args else None
+            if paired is not None:
+                # create_node(TABLE[<accepted token>], ...): every node class the constant pairing table declares can be built here (closed world over its keys)
+                for key in paired[1]:
+                    c = c01_parser.resolve_with(repo, mod, args[0], lambda call, key=key: key)
+                    if not (isinstance(c, tuple) and c[0] == 'name' and c01_parser.is_node_class(repo, mod, c[1])):
+                        raise Undecided(f'Parser.{meth}: entry {key!r} of {paired[0]} does not name a node class')
+                    out.setdefault(c[1], meth)
+            elif fname == 'self.create_node' and args and args[0][0] == 'name':
                 out.setdefault(args[0][1], meth)
             elif r[3] is None and c01_parser.is_node_class(repo, mod, fname):
                 out.setdefault(fname, meth)
